@@ -9,7 +9,10 @@ TIER="${TIER:-quick}"
 cd /repo || exit 2
 if [ -n "$(git status --porcelain --untracked-files=no)" ]; then echo "/repo not clean" >&2; exit 2; fi
 if ! git apply $REV "$PATCH"; then echo "patch does not apply" >&2; exit 2; fi
-trap 'git -C /repo checkout -- . ; git -C /repo clean -fdq src' EXIT
+# evidence written while a patch is applied must not replace the evidence of the unchanged tree
+EVBAK=$(mktemp -d /tmp/jv-evbak.XXXXXX)
+cp -a /verif/evidence/. "$EVBAK"/ 2>/dev/null
+trap 'git -C /repo checkout -- . ; git -C /repo clean -fdq src; rm -rf /verif/evidence; mkdir -p /verif/evidence; cp -a "$EVBAK"/. /verif/evidence/ 2>/dev/null; rm -rf "$EVBAK"' EXIT
 for id in "$@"; do
   out=$(cd /verif && VERIF_SEED="${VERIF_SEED:-1}" ./check "$id" "$TIER" 2>&1)
   code=$?
